@@ -205,7 +205,7 @@ def prog_C10(ctx):
 
 
 def prog_C15(ctx):
-    generic(ctx, ['Dc4bcVerif.Props.C15'], 'nodediff', 'node', ['C15'], NODE_TRUSTED, NODE_RULE, cov_from_stats=node_cov)
+    generic(ctx, ['Dc4bcVerif.Props.C15', 'Dc4bcVerif.Props.SrcFacts'], 'nodediff', 'node', ['C15'], NODE_TRUSTED, NODE_RULE, cov_from_stats=node_cov)
 
 
 def prog_C08(ctx):
@@ -286,7 +286,7 @@ def prog_C11(ctx):
 
 
 def prog_C13(ctx):
-    generic(ctx, ['Dc4bcVerif.Props.C13', 'Dc4bcVerif.Props.C13Fsm', 'Dc4bcVerif.Props.C13Node', 'Dc4bcVerif.Props.C13Start', 'Dc4bcVerif.Props.C13Clock', 'Dc4bcVerif.Props.C13Reinit', 'Dc4bcVerif.Props.C18'], 'nodediff', 'node', ['C13'], NODE_TRUSTED +
+    generic(ctx, ['Dc4bcVerif.Props.C13', 'Dc4bcVerif.Props.C13Fsm', 'Dc4bcVerif.Props.C13Node', 'Dc4bcVerif.Props.C13Start', 'Dc4bcVerif.Props.C13Clock', 'Dc4bcVerif.Props.C13Reinit', 'Dc4bcVerif.Props.SrcFacts', 'Dc4bcVerif.Props.C18'], 'nodediff', 'node', ['C13'], NODE_TRUSTED +
             ['translator: the ordered list of calls with durable effects per function of node_service.go (Gen/Effects.lean), regenerated on every run; order_in_source / answer_order_in_source are kernel-evaluated over it',
              'crashdiff: a real ceremony in which one node is killed before its k-th durable effect (every write to its state store, every send to the board; enumerated from a crash-free reference run), restarted with the real constructors on the same directories, and driven on; results of the airgapped machine are re-submitted, not re-computed',
              'assumed, not proved: atomicity of one LevelDB write, durability of the board file (ReapplySafe of the handler is proved for the node model: node_reapplySafe)'],
